@@ -17,7 +17,7 @@ import (
 )
 
 func init() {
-	register(&Scenario{Name: "wspool", Props: []string{"C20"}, Kind: "micro", Run: runWSPool})
+	register(&Scenario{Name: "wspool", Props: []string{"C20", "C19"}, Kind: "micro", Run: runWSPool})
 }
 
 type fakeConn struct {
@@ -120,6 +120,19 @@ func runWSPool(x *X) {
 			scripts[t] = append(scripts[t], op)
 		}
 	}
+	if c.Intn(10, "shutdown-at-cleanup-tick") == 0 {
+		// biased pattern: connections parked until they are stale, then Shutdown at the very instant
+		// of a cleanup tick (the balancer is stopped while the sweep is closing what has expired)
+		var sc []poolOp
+		for k := 0; k < 1+c.Intn(3, "parked"); k++ {
+			sc = append(sc, poolOp{kind: "putnew", backend: backends[c.Intn(len(backends), "backend")]})
+		}
+		ticks := 1 + int(idleTimeout/(30*time.Second))
+		sc = append(sc, poolOp{kind: "sleep", d: time.Duration(ticks) * 30 * time.Second}, poolOp{kind: "shutdown"})
+		scripts[0] = sc
+		midShutdown = true
+		x.Probe("shutdown-at-cleanup-tick")
+	}
 	var desc []string
 	for t, sc := range scripts {
 		d := fmt.Sprintf("t%d:", t)
@@ -135,7 +148,11 @@ func runWSPool(x *X) {
 	x.Sample["scripts"] = desc
 
 	s := x.StartMicro()
-	onErr := func(e *simrt.SchedError) { x.Violate("C12", "C12/"+e.Kind+"{wspool}", "%s", e.Error()) }
+	onErr := func(e *simrt.SchedError) {
+		x.Violate("C20", "C20/pool-blocked{"+e.Kind+"}", "pool operations no longer return: %s", e.Error())
+		x.Violate("C19", "C19/stop-blocked{pool-"+e.Kind+"}", "the pool's Shutdown (called by LoadBalancer.Stop) or the operations around it no longer return: %s", e.Error())
+		x.Violate("C12", "C12/"+e.Kind+"{wspool}", "%s", e.Error())
+	}
 	var pool *loadbalancer.WebSocketPool
 	x.Do("setup", func() { pool = loadbalancer.NewWebSocketPool(maxIdle, 100, idleTimeout) }, onErr)
 
@@ -297,6 +314,7 @@ func runWSPool(x *X) {
 		mu.Unlock()
 		if leaked > 0 {
 			x.Violate("C20", "C20/shutdown-left-connections-open", "%d idle pooled connections are still open after Shutdown", leaked)
+			x.Violate("C19", "C19/pooled-connections-left-open", "%d idle pooled connections are still open after the pool's Shutdown (what LoadBalancer.Stop calls)", leaked)
 		}
 		x.Do("get-after-shutdown", func() {
 			for _, b := range backends {
